@@ -634,6 +634,8 @@ func (x *Exec) applySpecNamed(st *State, c *ssa.Call, fn *ssa.Function, spec *Fu
 	// vacuity guard: the callee's (assumed) postcondition must not make a reachable state unreachable
 	coverName := ""
 	if x.primary && x.pure == 0 && !st.dead && x.top != nil && !x.initMode {
+		// contracts that are assumed rather than verified (extern, iface, trusted) get two probes per
+		// caller, verified function contracts one
 		lim := 1
 		if spec.Kind != "func" || spec.Trusted {
 			lim = 2
